@@ -1,5 +1,6 @@
 import PrysmVerif.Lemmas.C13Trapz
 import PrysmVerif.Lemmas.C13Dft
+import Mathlib.Analysis.Real.Sqrt
 /-!
 # C13 — helpers for the full-band bound (outermost samples), mean square, non-negativity of the model PSD
 -/
@@ -43,5 +44,38 @@ theorem psdRot_nonneg (pre post : Rot) (m n : ℕ) (dx : ℝ) (hdx : dx ≠ 0) (
   apply div_nonneg _ (sq_nonneg _)
   rw [winS2_eq]
   exact sum_nonneg fun i _ => sum_nonneg fun j _ => sq_nonneg _
+
+/-- the radial frequency grid handed to `bandlimited_rms`: `r[i,j] = hypot(fx_j, fy_i)` on the returned axes -/
+noncomputable def rgrid (m n : ℕ) (dx : ℝ) (i j : ℕ) : ℝ :=
+  Real.sqrt (axisFreq m dx i ^ 2 + axisFreq n dx j ^ 2)
+
+theorem axisFreq_centre (n : ℕ) (dx : ℝ) : axisFreq n dx (n / 2) = 0 := by
+  have : axisFreqNum (n : ℤ) ((n / 2 : ℕ) : ℤ) = 0 := by unfold axisFreqNum; omega
+  simp only [axisFreq, this, ofInt_eq, Int.cast_zero, zero_div]
+
+theorem pyPrev_centre (n : ℕ) (hn : 2 ≤ n) : pyPrev n (n / 2) = n / 2 - 1 := by
+  unfold pyPrev
+  have h : (((n / 2 : ℕ) : ℤ) - 1) % (n : ℤ) = ((n / 2 : ℕ) : ℤ) - 1 := Int.emod_eq_of_lt (by omega) (by omega)
+  rw [h]; omega
+
+theorem axisFreq_prev (n : ℕ) (hn : 2 ≤ n) (dx : ℝ) : axisFreq n dx (n / 2 - 1) = -(1 / (n * dx)) := by
+  have : axisFreqNum (n : ℤ) ((n / 2 - 1 : ℕ) : ℤ) = -1 := by unfold axisFreqNum; omega
+  simp only [axisFreq, this, ofInt_eq, Int.cast_neg, Int.cast_one, Int.cast_natCast]
+  ring
+
+theorem steps_per_axis (m n : ℕ) (hm : 2 ≤ m) (hn : 2 ≤ n) (dx : ℝ) (hdx : 0 < dx) :
+    stepAxis0 (fun x => |x|) m n (rgrid m n dx) = 1 / (m * dx) ∧
+    stepAxis1 (fun x => |x|) m n (rgrid m n dx) = 1 / (n * dx) := by
+  have hm' : (0 : ℝ) < m := Nat.cast_pos.mpr (by omega)
+  have hn' : (0 : ℝ) < n := Nat.cast_pos.mpr (by omega)
+  have pm : (0 : ℝ) ≤ 1 / (m * dx) := by positivity
+  have pn : (0 : ℝ) ≤ 1 / (n * dx) := by positivity
+  constructor
+  · simp only [stepAxis0, rgrid, pyPrev_centre m hm, axisFreq_centre, axisFreq_prev m hm]
+    norm_num
+    rw [Real.sqrt_sq (by positivity), abs_of_nonneg (by positivity)]
+  · simp only [stepAxis1, rgrid, pyPrev_centre n hn, axisFreq_centre, axisFreq_prev n hn]
+    norm_num
+    rw [Real.sqrt_sq (by positivity), abs_of_nonneg (by positivity)]
 
 end C13L
